@@ -115,7 +115,7 @@ func genC01(t *rapid.T) C01Sc {
 		sc.Cfg.Hook = "allow"
 	}
 	sc.Op = pick(t, "op", "none", "none", "ping", "bootstrap", "announce", "announce-implied", "scrape", "traverse", "get", "get-mutable", "put", "put")
-	n := 1 + uniformInt(t, 40, "nmsgs")
+	n := 1 + uniformInt(t, deep(t, 40), "nmsgs")
 	for i := 0; i < n; i++ {
 		d := C01Dgram{Src: genSrc(t, sc.Cfg.Dual, "src")}
 		roll := uniformInt(t, 10, "kind")
